@@ -399,6 +399,43 @@ def r6_counted_per_iteration(ctx, P):
     ctx.floor(R, "clone loops in extend_from_within_clone", n, 6)
 
 
+def r7_forgotten_callback_results(ctx, P):
+    R = "C06.R7"
+    ctx.rule(R, "a value produced by user code (Clone::clone, a closure, an iterator) is not mem::forget-ten while more user "
+                "code can still run in the same operation: a forgotten value has no owner, so if the next callback panics it "
+                "is never dropped (zero-sized elements are 'stored' by forgetting them - they need the initializer/guard like "
+                "sized ones)")
+    n = nall = 0
+    for b in P.fn_bodies():
+        fs = [(s_, t) for s_, t in b.calls() if t["f"].get("path") == "core::mem::forget"]
+        if not fs:
+            continue
+        nall += len(fs)
+        users = [s_ for s_, t, nm in direct_user_sites(b) if not nm.startswith("drop")]
+        for k, (s_, t) in enumerate(fs):
+            v = b.prov_operand(t["args"][0], s_)
+            made_by_user = expr_mentions(v, lambda x: x[0] == "call" and x[1] in USER_TRAITS)
+            op = t["args"][0]
+            if not made_by_user and op.get("k") in ("mv", "cp") and not op["p"]["p"]:
+                # Clone::clone is transparent for provenance: look at the defining call itself
+                for nd in b.reaching_defs(op["p"]["l"], s_):
+                    d = b._defs[nd]
+                    if d[2] == "call" and d[3]["f"].get("path") in USER_TRAITS and "param" in ((d[3]["f"].get("args") or [{}])[0]):
+                        made_by_user = True
+            if not made_by_user:
+                continue
+            n += 1
+            later = [u for u in users if b.can_reach(s_, u, cleanup=False)]
+            ok = not later
+            ctx.inst(R, b.path, ok, "the forgotten callback result is the last user-produced value of the operation" if ok else
+                     f"mem::forget({show(v)[:60]}) and then user code can run again ({len(later)} site(s), e.g. line "
+                     f"{b.line_of(later[0])}): if that panics the forgotten value is lost - it is in no slice, no guard drops it",
+                     where=b.where(s_), site=f"forget of callback result #{k}")
+    ctx.inst(R, "mem::forget sites", True, f"{nall} mem::forget call(s) inspected, {n} of them forget a value produced by user code",
+             site="population")
+    ctx.floor(R, "mem::forget call sites inspected", nall, 5)
+
+
 def run(ctx, progs):
     ctx.assume("rustc's drop elaboration: a moved value is not dropped again; unwind edges and drop flags are as in MIR")
     ctx.assume("user code = calls of foreign-trait methods on type parameters (closures, Clone, PartialEq, Iterator) and drops of "
@@ -412,4 +449,5 @@ def run(ctx, progs):
         r4_owners_drop(ctx, P)
         r5_double_accounting(ctx, P)
         r6_counted_per_iteration(ctx, P)
+        r7_forgotten_callback_results(ctx, P)
     ctx.config = None
